@@ -2,6 +2,7 @@ import Drv.C01
 import Drv.Index
 import Drv.C13
 import Drv.RL
+import Drv.C345
 open Lean Drv
 
 def dispatch (op : String) (j : Json) : Json :=
@@ -11,6 +12,9 @@ def dispatch (op : String) (j : Json) : Json :=
   | "C01.flat" => C01.flat j
   | "C02.getitem" => C02.getitem j
   | "C13.all" => C13.all j
+  | "C03.setitem" => C03.setitem j
+  | "C04.ufunc" => C04.ufunc j
+  | "C05.reduce" => C05.reduce j
   | "RL.encode" => RL.encode j
   | "RL.index" => RL.index j
   | "RL.binop" => RL.binop j
